@@ -337,7 +337,9 @@ def int_range(code):
 def int_bytes(code, v):
     """Little-endian two's complement bytes of v in the firmware type (arithmetic, no struct)."""
     size, signed = INT_CODES[code]
-    u = v % (1 << (8 * size))
+    lo, hi = int_range(code)
+    assert lo <= v <= hi
+    u = v + (1 << (8 * size)) if (signed and v < 0) else v        # two's complement
     return [(u // (1 << (8 * k))) % 256 for k in range(size)]
 
 
